@@ -97,6 +97,10 @@ func storedCallsOracle(e *Env) error {
 			for k := 0; k < total+2 && !r.Full(); k++ {
 				cf := *c
 				cf.FailAt = k
+				if (k+si+round)%2 == 1 {
+					// every other failing run goes through another top-level entry point / writer kind (c17_routes.go)
+					cf.Route = nextRoute()
+				}
 				im := runImpl(&cf)
 				made := len(im.Spies) > k
 				r.Seen(fmt.Sprintf("stored:%s:%d:%s", shape.name, k, tpls["main"]), made)
@@ -108,7 +112,7 @@ func storedCallsOracle(e *Env) error {
 					continue
 				}
 				if im.Class == "" || im.Out != "" || !sameInts(im.Causes, []int{k}) {
-					if r.Violate(Violation{Key: "stored-call-failure-swallowed", What: fmt.Sprintf("%s: spy invocation %d (%v) of %d made during the render failed, but Render returns %q, class %q, causes %v (invocations made: %d)", shape.name, k, im.Spies[k], total, truncate(im.Out, 80), im.Class, im.Causes, len(im.Spies)),
+					if r.Violate(Violation{Key: "stored-call-failure-swallowed", What: fmt.Sprintf("%s: spy invocation %d (%v) of %d made during the render failed, but %s returns %q, class %q, causes %v (invocations made: %d)", shape.name, k, im.Spies[k], total, routeName(cf.Route), truncate(im.Out, 80), im.Class, im.Causes, len(im.Spies)),
 						Broken: "theorem C17_propagates no longer describes the code (stored macro calls; implementation-only oracle: errors.As on the sentinel)", Replay: cf.replay(im, Outcome{})}) {
 						return nil
 					}
